@@ -648,3 +648,31 @@ def main(ctx):
                                       "integrate(bound method gauss on [1,-1])",
                                       "integrate(table %d)" % H_TABLES[0], "integrate(table %d)" % H_TABLES[1]],
                               key="fingerprint of the whole __dict__ (npts, xxi, wii, f2)"))
+
+    # ------------------------------------------- several live objects (process-wide state)
+    # up to 3 QGauss objects (different point counts) alive in one process: a rule cached at module or class
+    # level, or scratch arrays shared between objects, must not leak from one integrator into another
+    from mc.worlds import object_world
+
+    def q_do(q, kind, op):
+        if op[0] == "func":
+            return [q.integrate(np.array([0.0, 2.0]), np.exp, npts=op[1])]
+        xs = np.array([0.0, 0.5, 1.5, 2.0, 4.0])
+        return [q.integrate(xs, np.array([1.0, 3.0, -1.0, 2.0, 0.5]), npts=op[1])]
+
+    def q_check(kind, op, res):
+        eff = op[1]
+        x, w = np.polynomial.legendre.leggauss(eff)
+        if op[0] == "func":
+            exp = float(np.sum(w * np.exp(x + 1.0)))
+            if not abs(float(res[0]) - exp) <= 1e-9 * abs(exp):
+                return "result %r differs from the %d-point reference rule %r" % (float(res[0]), eff, exp)
+
+    def q_modules():
+        import esutil.integrate.util as iu
+        return [iu]
+
+    object_world(ctx, "several-objects", ["n3", "n8", "n21"], lambda kind: QGauss({"n3": 3, "n8": 8, "n21": 21}[kind]),
+                 # explicit point counts only: a call without npts= uses the object's last count by design
+                 [("func", 5), ("func", 12), ("data", 5), ("data", 12)], q_do, q_modules,
+                 depth=ctx.pick(4, 5), check=q_check)
